@@ -22,7 +22,8 @@ import pandas as pd
 
 from common import rq, unrq, enc_list, dec_list
 
-REQUIRED = ['ice_eq_npgformula', 'plan_rowwise_eq_single', 'plan_shape', 'ice_single_t_eq_timefixed',
+REQUIRED = ['ice_eq_npgformula', 'plan_rowwise_eq_single', 'ice_rowwise_eq_npgformula', 'npg_textbook_form',
+            'plan_shape', 'ice_single_t_eq_timefixed',
             'survival_product_limit', 'cuminc_monotone_bounded']
 RULE = ('wide data: K in 1..3 time points, covariate arity 2 (3 for K<=2 in some sets), every history cell seeded so '
         'that the saturated designs have full rank, survival-type outcomes (missing after the first event; optionally '
@@ -717,9 +718,11 @@ def replay(rec):
                 print('nonparametric g-formula (exact):', rep.get('value'), '=',
                       float(unrq(rep['value'])) if rep.get('value') else None, {k: rep.get(k) for k in ('wf', 'surv', 'cover', 'pos')})
                 if rep.get('value') and st[0] == 'ok' and all(rep.get(k) == '1' for k in ('wf', 'surv', 'cover', 'pos')) \
-                        and abs(st[1] - float(unrq(rep['value']))) > 1e-7:
+                        and not abs(st[1] - float(unrq(rep['value']))) <= 1e-7:
                     bad += 1
-            if one is not None and st[:1] == ('ok',) and one[:1] == ('ok',) and abs(st[1] - one[1]) > 1e-12:
+            if one is not None and (st[0] != one[0] or (st[0] == 'ok' and not abs(st[1] - one[1]) <= 1e-12)):
+                bad += 1
+            if st[0] == 'exc':
                 bad += 1
         elif c.get('kind') == 'sgf':
             df = frame_from(c['frame'])
@@ -747,7 +750,7 @@ def replay(rec):
                                      **long_args(df, (df['B'] == 1).values))
                     print('product-limit from counts:', rep.get('times'), rep.get('pl'))
                     pl = [None if x == '_' else float(unrq(x)) for x in dec_list(rep['pl'], str)]
-                    if c['model'] == 'C(t)*A' and any(w is not None and abs(w - g) > 1e-7 for w, g in zip(pl, marg.values)):
+                    if c['model'] == 'C(t)*A' and any(w is not None and not abs(w - g) <= 1e-7 for w, g in zip(pl, marg.values)):
                         bad += 1
                 s = sg.predicted_df.sort_values(['id', 't'])
                 v = s['Y'].values
